@@ -19,7 +19,7 @@ LEVEL = 'exploration'
 RULE = ('full product: model {a exp(-b x), a cosh(b (x - 3)), a/(1+b x), a exp(-b x)+c, two-dimensional a x1 + b exp(-x2)} x data '
         'layout {every point on its own ensemble, all points on one ensemble} x chi-square {uncorrelated, correlated} x priors '
         '{none, Obs prior on the non-linear parameter} x gradient {autograd, num_grad}; total_least_squares for every model with '
-        'observable abscissae (own ensembles), every model x {uncorrelated, correlated} x priors x method {migrad, Nelder-Mead, Powell} against the Levenberg-Marquardt result (parameters, chi-square, fluctuations), fit_lin dispatch with observable x, negligible-x-error limit.  For every fit: '
+        'observable abscissae (own ensembles), every model x {uncorrelated, correlated} x priors x method {migrad, Nelder-Mead, Powell} against the Levenberg-Marquardt result (parameters, chi-square, fluctuations); three models sharing one code object fitted in every order against the same models written out, fit_lin dispatch with observable x, negligible-x-error limit.  For every fit: '
         'stationarity of the re-implemented chi-square and a finite-difference re-fit sensitivity for EVERY data point (and every '
         'abscissa / prior) against the reported fluctuations.  Non-trivial = every fit')
 ASSUMPTIONS = ['sensitivities by re-fitting with y_i +- eps, eps = 0.1 sigma and 0.05 sigma (Richardson), accepted within 2e-3 of the '
@@ -117,6 +117,9 @@ def build(tier, seed):
                 continue      # num_grad total least squares is slow: two models in the quick tier, all in thorough
             cases.append({'kind': 'tls', 'model': model, 'num_grad': ng})
     cases.append({'kind': 'tls-limit'})
+    # call history: three models that share one code object (closures from a factory), fitted in every order
+    for order in itertools.permutations(range(3)):
+        cases.append({'kind': 'ls-factory', 'order': list(order)})
     # the other minimisers must arrive at the same stationary point, chi-square and fluctuations as Levenberg-Marquardt
     for model in models():
         for corr in (False, True):
@@ -139,6 +142,8 @@ def run_case(case):
             run_tls(pe, acc, case)
         elif case['kind'] == 'ls-method':
             run_ls_method(pe, acc, case)
+        elif case['kind'] == 'ls-factory':
+            run_ls_factory(pe, acc, case)
         else:
             run_tls_limit(pe, acc, case)
     return acc
@@ -260,6 +265,57 @@ def run_ls(pe, acc, case):
     acc.count('refits', 4 * len(sources))
     acc.count('sensitivity-coefficients-compared', len(sources) * npar)
     acc.sample(dict(case, points=n))
+
+
+def run_ls_factory(pe, acc, case):
+    a = anp()
+
+    def make(k):
+        return lambda p, x: p[0] * a.exp(-k * p[1] * x)
+    ks = [0.5, 1.0, 2.0]
+    fs = [make(k) for k in ks]
+    written = [lambda p, x: p[0] * a.exp(-0.5 * p[1] * x), lambda p, x: p[0] * a.exp(-1.0 * p[1] * x), lambda p, x: p[0] * a.exp(-2.0 * p[1] * x)]
+    if fs[0].__code__ is not fs[2].__code__ or written[0].__code__ is written[1].__code__:
+        raise engine.MachineryError('factory / written-out functions do not have the intended code objects')
+    n = 6
+    x = 0.3 + 0.4 * np.arange(n)
+    data = []
+    for i, k in enumerate(ks):
+        r = alpha.rng('c08fac', i)
+        common = r.normal(size=40)
+        ys = []
+        for j in range(n):
+            mean = 1.2 * math.exp(-k * 0.45 * x[j]) * (1 + 0.01 * r.normal())
+            ys.append(pe.Obs([mean * (1 + 0.03 * (0.5 * common + 0.8 * r.normal(size=40)))], ['S|r1']))
+        [y.gamma_method() for y in ys]
+        data.append(ys)
+    for kw_name, kw in (('plain', {}), ('correlated', {'correlated_fit': True}), ('num_grad', {'num_grad': True})):
+        for pos, i in enumerate(case['order']):
+            sub = dict(case, which=i, position=pos, options=kw_name)
+            try:
+                res = pe.least_squares(x, data[i], fs[i], silent=True, initial_guess=[1.0, 0.4], **kw)
+                exp = pe.least_squares(x, data[i], written[i], silent=True, initial_guess=[1.0, 0.4], **kw)
+            except Exception as e:
+                acc.fail('ls-factory:raised', sub, 'least_squares raised %s: %s' % (type(e).__name__, e))
+                continue
+            bad = None
+            [o.gamma_method() for o in exp.fit_parameters]
+            for j in range(2):
+                g, e = res.fit_parameters[j], exp.fit_parameters[j]
+                if not abs(g.value - e.value) <= 1e-6 * e.dvalue:
+                    bad = 'parameter %d: %.12g, with the same model written out %.12g' % (j, g.value, e.value)
+                elif not np.max(np.abs(g.deltas['S|r1'] - e.deltas['S|r1'])) <= 1e-6 * np.max(np.abs(e.deltas['S|r1'])):
+                    bad = 'fluctuations of parameter %d differ from those obtained with the same model written out (max deviation %g of %g)' % (
+                        j, np.max(np.abs(g.deltas['S|r1'] - e.deltas['S|r1'])), np.max(np.abs(e.deltas['S|r1'])))
+                if bad:
+                    break
+            if not bad and not abs(res.chisquare - exp.chisquare) <= 1e-8 * max(1.0, exp.chisquare):
+                bad = 'chisquare %r vs %r' % (res.chisquare, exp.chisquare)
+            if bad:
+                acc.fail('ls-factory:%s' % kw_name, sub, 'model #%d of a factory (k=%g) fitted as number %d of the order %s (%s): %s' % (i, ks[i], pos + 1, case['order'], kw_name, bad))
+            else:
+                acc.ok(('lsfac', tuple(case['order']), i, kw_name), True, 'ls-factory')
+    acc.sample(dict(case, models='p0 exp(-k p1 x), k in %s, from one factory' % ks))
 
 
 def run_ls_method(pe, acc, case):
